@@ -20,7 +20,11 @@ theorem updSt_get_self (w : World σ) (i : Nat) (f : σ → σ) (o : Obj σ) (hw
     rcases Nat.lt_or_ge i w.length with h | h
     · exact h
     · rw [List.getElem?_eq_none h] at hw; cases hw
+  have he : w[i] = o := by
+    have := List.getElem?_eq_getElem hlt
+    rw [this] at hw; exact Option.some.inj hw
   simp [hw, List.getElem?_set, hlt]
+  simp [he]
 
 theorem bumpIdx_get_ne (w : World σ) (i j : Nat) (h : j ≠ i) : (bumpIdx w i)[j]? = w[j]? := by
   unfold bumpIdx
@@ -35,30 +39,32 @@ theorem bumpIdx_get_self (w : World σ) (i : Nat) (o : Obj σ) (hw : w[i]? = som
     rcases Nat.lt_or_ge i w.length with h | h
     · exact h
     · rw [List.getElem?_eq_none h] at hw; cases hw
+  have he : w[i] = o := by
+    have := List.getElem?_eq_getElem hlt
+    rw [this] at hw; exact Option.some.inj hw
   simp [hw, List.getElem?_set, hlt]
+  simp [he]
 
 /-- one function of a well-bound object leaves every other object alone -/
 theorem execOne_frame (step : σ → Nat → σ) (w : World σ) (i j : Nat) (o : Obj σ) (hw : w[i]? = some o)
     (hb : wellBound i o) (h : j ≠ i) : (execOne step w i)[j]? = w[j]? := by
   unfold execOne
-  rw [hw]
+  simp only [hw]
   cases hs : o.plan[o.index]? with
   | none => rfl
   | some sl =>
       have hr : sl.recv = i := hb sl (List.mem_of_getElem? hs)
-      simp only [hr]
-      rw [bumpIdx_get_ne _ _ _ h, updSt_get_ne _ _ _ _ h]
+      simp only []
+      rw [hr, bumpIdx_get_ne _ _ _ h, updSt_get_ne _ _ _ _ h]
 
 /-- …and acts on the object itself -/
 theorem execOne_self (step : σ → Nat → σ) (w : World σ) (i : Nat) (o : Obj σ) (hw : w[i]? = some o)
     (hb : wellBound i o) (hlt : o.index < o.plan.length) :
     (execOne step w i)[i]? = some { o with st := step o.st o.index, index := o.index + 1 } := by
   unfold execOne
-  rw [hw]
   have hs : o.plan[o.index]? = some o.plan[o.index] := List.getElem?_eq_getElem hlt
-  rw [hs]
   have hr : (o.plan[o.index]).recv = i := hb _ (List.getElem_mem hlt)
-  simp only [hr]
+  simp only [hw, hs, hr]
   rw [bumpIdx_get_self _ _ _ (updSt_get_self w i _ o hw)]
 
 /-- `n` functions of a well-bound object: it advances exactly as if it were alone, nothing else moves -/
@@ -94,8 +100,8 @@ theorem deepcopy_spec (w : World σ) (i : Nat) (o : Obj σ) (hw : w[i]? = some o
       o'.plan.length = o.plan.length) ∧
     ∀ j, j < w.length → (deepcopy w i)[j]? = w[j]? := by
   unfold deepcopy
-  rw [hw]
-  refine ⟨⟨_, by simp, ?_, ?_, rfl, rfl, by simp⟩, ?_⟩
+  simp only [hw]
+  refine ⟨⟨{ o with plan := o.plan.map (rebindDeep i w.length) }, by simp, ?_, ?_, rfl, rfl, by simp⟩, ?_⟩
   · intro sl hsl
     simp only [List.mem_map] at hsl
     obtain ⟨a, ha, rfl⟩ := hsl
@@ -113,8 +119,8 @@ theorem byValue_spec (w : World σ) (i : Nat) (o : Obj σ) (hw : w[i]? = some o)
       o'.plan.length = o.plan.length) ∧
     ∀ j, j < w.length → (byValue w i)[j]? = w[j]? := by
   unfold byValue
-  rw [hw]
-  refine ⟨⟨_, by simp, ?_, rfl, rfl, by simp⟩, ?_⟩
+  simp only [hw]
+  refine ⟨⟨{ o with plan := o.plan.map (rebindValue i w.length) }, by simp, ?_, rfl, rfl, by simp⟩, ?_⟩
   · intro sl hsl
     simp only [List.mem_map] at hsl
     obtain ⟨a, ha, rfl⟩ := hsl
